@@ -310,3 +310,20 @@ Definition check_case (pre : list (N * term)) (k : core) (post : list (N * term)
 (* the model against its own direct evaluation (evaluated by the check as a cross-validation of the model) *)
 Definition model_ground_ok (pre : list (N * term)) (k : core) (post : list (N * term)) : bool :=
   chk_ground pre k post (model_answers pre k post).
+
+(* monomorphic constructors for the literals written by the check (they elaborate twice as fast as list notations) *)
+Definition T0 : list term := [].
+Definition TC : term -> list term -> list term := cons.
+Definition PP : term -> term -> term * term := pair.
+Definition P0 : list (term * term) := [].
+Definition PC : term * term -> list (term * term) -> list (term * term) := cons.
+Definition AN : list term -> list (term * term) -> answer := pair.
+Definition A0 : list answer := [].
+Definition AC : answer -> list answer -> list answer := cons.
+Definition B0 : list (N * term) := [].
+Definition BC (x : N) (t : term) (r : list (N * term)) : list (N * term) := (x, t) :: r.
+Definition vx : term := Var 0. Definition vy : term := Var 1. Definition vz : term := Var 2.
+Definition vo1 : term := Var o1. Definition vo2 : term := Var o2.
+Definition w0 : term := Var 0. Definition w1 : term := Var 1. Definition w2 : term := Var 2. Definition w3 : term := Var 3.
+Definition w4 : term := Var 4. Definition w5 : term := Var 5. Definition w6 : term := Var 6. Definition w7 : term := Var 7.
+Definition tcons' : term -> term -> term := tcons.
